@@ -679,11 +679,13 @@ func runScenario(t *testing.T, line string) string {
 						var mu sync.Mutex
 						first := ""
 						got := false
+						gotc := make(chan struct{})
 						_, err := sc.cc.DoObserve(req, func(n *pool.Message) {
 							body, _ := io.ReadAll(n.Body())
 							mu.Lock()
 							if !got {
 								got, first = true, string(body)
+								close(gotc)
 							}
 							mu.Unlock()
 						})
@@ -691,6 +693,12 @@ func runScenario(t *testing.T, line string) string {
 						if err != nil {
 							res = classify(err)
 						} else {
+							// NewObservation returns as soon as the first notification is in its channel; the observer
+							// function is called right after that, by the goroutine that delivered it
+							select {
+							case <-gotc:
+							case <-sc.cc.Done():
+							}
 							mu.Lock()
 							res = "ok:" + first
 							mu.Unlock()
